@@ -171,6 +171,7 @@ def run(ctx):
     check_raw_scalars(ctx, prog)
     check_order_members(ctx, prog)
     check_buffer_alias(ctx, prog)
+    check_widths(ctx, prog)
     return __doc__.split('\n\n', 1)[1]
 
 
@@ -1253,3 +1254,47 @@ def check_buffer_alias(ctx, prog):
     ac = alias.AliasClass(prog, ctx, 'StreamBuffer', 'asl::StreamBuffer', ('_a',), (), risk, extra_invalidators=ac_arr.inv)
     unsafe, n = ac.run('R-ALIAS', extern_summaries=unsafe_arr)
     ctx.floor('R-ALIAS StreamBuffer members x at-risk params', n, 2)
+
+
+
+def check_widths(ctx, prog):
+    """C16.width: every scalar type has a writer of its own width.  In the instantiation driver (one `s << x` per scalar type and
+    stream class) the operator that overload resolution selects must take a value of the size of the argument: a missing
+    overload lets the argument be converted to a wider type (short -> int), so the value occupies more bytes than its type
+    and everything behind it is shifted."""
+    n = 0
+    bad = []
+    for f in prog.functions:
+        if not f.get('body') or not (f.get('q') or '').startswith('aslverif_driver::writeAll'):
+            continue
+        for e in fn_exprs(f):
+            if not (e.get('k') == 'call' and (e.get('pq') or '').endswith('::operator<<') and e.get('clsp') in STREAM_CLASSES and len(e.get('a') or []) == 1):
+                continue
+            a = e['a'][0]
+            inner = a
+            conv = None
+            while isinstance(inner, dict) and inner.get('k') in ('temp', 'cast', 'paren', 'construct'):
+                if inner.get('k') == 'cast' and inner.get('ck') in ('IntegralCast', 'FloatingCast', 'IntegralToFloating', 'FloatingToIntegral'):
+                    conv = inner
+                nxt = inner.get('e') if inner.get('k') != 'construct' else (inner.get('a') or [None])[0]
+                if nxt is None:
+                    break
+                inner = nxt
+            if not (isinstance(inner, dict) and inner.get('k') == 'var'):
+                continue
+            vt = T(f, inner.get('dt') or inner.get('t'))
+            if not ((vt.get('int') or vt.get('flt')) and vt.get('sz')):
+                continue
+            n += 1
+            if conv is not None:
+                ct = T(f, conv.get('t'))
+                if ct.get('sz') and ct['sz'] != vt['sz']:
+                    bad.append((f, e, vt.get('s'), ct.get('s'), vt['sz'], ct['sz']))
+    ctx.evaluations += n
+    if bad:
+        f, e, a_, b_, sa, sb = bad[0]
+        ctx.violation('C16.width', e.get('pq'), 'operator<<:an overload of the argument\'s own width exists for every scalar type', fwhere(f, e.get('l')),
+                      'a `%s` argument (%d bytes) is converted to `%s` (%d bytes) to match `%s%s`: the stream class has no writer for that type, the value takes %d bytes on the wire' % (a_, sa, b_, sb, e.get('pq'), e.get('sig') or '', sb))
+    else:
+        ctx.ok('C16.width', 'aslverif_driver::writeAll', 'operator<<:an overload of the argument\'s own width exists for every scalar type', '', '%d scalar writes in the driver, none through a widening conversion' % n)
+    ctx.floor('C16.width', n, 20)
